@@ -10,6 +10,7 @@ import (
 	"bytes"
 	"crypto/sha256"
 	"encoding/hex"
+	"encoding/json"
 	"fmt"
 	"math/rand"
 	"os"
@@ -284,7 +285,7 @@ func permutations(xs []string) [][]string {
 	return out
 }
 
-func famIso(tr *Trace, scratch string, seed int64, tier string, workers int) M {
+func famIso(tr *Trace, scratch string, seed int64, tier string, workers int, behaviours string) M {
 	os.Unsetenv("SOURCE_DATE_EPOCH")
 	rng := rand.New(rand.NewSource(seed + 99))
 	nshapes := 12
@@ -325,13 +326,25 @@ func famIso(tr *Trace, scratch string, seed int64, tier string, workers int) M {
 		}
 		hist = append(hist, h)
 	}
-	if tier == "thorough" {
-		for i := 0; i < 2000; i++ { // longer simulated histories
+	nTLC := 0
+	if behaviours != "" {
+		// longer histories generated by TLC (Hist.tla, -simulate): one JSON array of operation names per line
+		b, err := os.ReadFile(behaviours)
+		must(err)
+		for _, ln := range strings.Split(strings.TrimSpace(string(b)), "\n") {
+			var names []string
+			must(json.Unmarshal([]byte(ln), &names))
 			var h []isoOp
-			for j := 0; j < 4+rng.Intn(5); j++ {
-				h = append(h, ops[rng.Intn(len(ops))])
+			for _, nm := range names {
+				if nm == "validate" {
+					h = append(h, isoOp{"validate", ""})
+					continue
+				}
+				i := strings.Index(nm, "(")
+				h = append(h, isoOp{nm[:i], nm[i+1 : len(nm)-1]})
 			}
 			hist = append(hist, h)
+			nTLC++
 		}
 	}
 	type job struct {
@@ -399,7 +412,7 @@ func famIso(tr *Trace, scratch string, seed int64, tier string, workers int) M {
 			tr.Index(j.id, M{"yaml": strings.ReplaceAll(j.s.yaml, j.s.root, "$ROOT")})
 		}
 	})
-	return M{"cases": len(jobs), "shapes": len(shapes), "histories_per_shape": len(hist), "max_len": maxLen}
+	return M{"cases": len(jobs), "shapes": len(shapes), "histories_per_shape": len(hist), "max_len": maxLen, "tlc_generated_histories": nTLC}
 }
 
 // ---------------------------------------------------------------- concurrency (run under -race)
